@@ -50,11 +50,26 @@ Inductive describes : bytes -> schema -> fparam -> Prop :=
 (* The domain of the JSON type oracle of Spec.v ([declared_json_type]): at every level that
    describes a parameter, the schema declares one JSON type -- through "type", or through a "oneOf"
    with exactly one alternative other than "string" (the only form the FireFly base meta-schema
-   admits).  Outside it [type_at_odds] is silent, so [consistent] alone decides nothing about the
+   admits) -- and so does every element description of an array type ([elements_declared]: the
+   [items] chain, as many levels as the Ethereum type of the details has dimensions).  Outside it [type_at_odds] is silent, so [consistent] alone decides nothing about the
    JSON type there. *)
+Fixpoint elems_declared (it : schema) (t : bytes) {struct it} : Prop :=
+  match it with
+  | Schema _ _ _ _ items' =>
+      declared_json_type it <> None /\
+      (if ends_with_rbracket t then
+         match items' with None => True | Some it' => elems_declared it' (strip_dim t) end
+       else True)
+  end.
+Definition elements_declared (t : bytes) (items : option schema) : Prop :=
+  if ends_with_rbracket t then
+    match items with None => True | Some it => elems_declared it (strip_dim t) end
+  else True.
+
 Inductive json_type_declared : schema -> Prop :=
 | Declared s :
     declared_json_type s <> None ->
+    (forall d, s_details s = Some d -> elements_declared (d_type d) (s_items s)) ->
     Forall (fun km => forall m, snd km = Some m -> json_type_declared m) (members_of s) ->
     json_type_declared s.
 
